@@ -7129,6 +7129,21 @@ pub(crate) fn eval(env: &mut Env, session: &Session) -> Result<Value, EvalError>
         if let Some((mut expr_state, outer_expr)) = env.current_frame_mut().exprs_to_eval.pop() {
             env.ticks += 1;
 
+            // Deterministic interrupt injection for the verification
+            // harness: VERIF_INTERRUPT_AT_TICK=5,9 sets the interrupt
+            // flag when the tick counter reaches 5 and again at 9.
+            #[cfg(wilfred_garden_verif)]
+            {
+                if let Ok(ticks_spec) = std::env::var("VERIF_INTERRUPT_AT_TICK") {
+                    if ticks_spec
+                        .split(',')
+                        .any(|t| t.trim().parse::<usize>() == Ok(env.ticks))
+                    {
+                        session.interrupted.store(true, Ordering::SeqCst);
+                    }
+                }
+            }
+
             if session.interrupted.load(Ordering::SeqCst) {
                 session.interrupted.store(false, Ordering::SeqCst);
                 restore_stack_frame(env, (expr_state, outer_expr), &[]);
